@@ -165,11 +165,11 @@ class DLISFile:
                 ]
             )
 
+        # number of logical records the generator is going to yield (see 'generator')
         n = 0
-        for eflr_set_type in self._eflr_sets:
-            n += len(list(self._eflr_sets.get_all_items_for_set_type(eflr_set_type)))
-
         for idx_lf, logical_file in enumerate(self.logical_files):
+            n += 1  # file header
+            n += sum(len(set_dict) for set_dict in logical_file._eflr_sets.values())  # one record per set
             for mfd in multi_frame_data_objects[idx_lf]:
                 n += len(mfd)
             n += len(logical_file._no_format_frame_data)
